@@ -122,6 +122,27 @@ RpGraph(r) == IsGraph(r) /\ r.scn.op = "rp"
 GoodLoads(r) == {k \in 1..Len(r.scn.loads) : r.scn.loads[k].fail = "none"}
 PlainLoads(r) == {k \in GoodLoads(r) : r.scn.loads[k].patch = <<>>}
 
+(* ------------------------------ shape vocabulary ------------------------------ *)
+(* Used by the signatures of RemotePickleJudge.tla and by the invariants of the model of the  *)
+(* code as written, which are weakened by exactly the shapes listed in                        *)
+(* known_findings.d/rpickle.json (a violation on any other shape still fails the run).        *)
+NamedKids(scn, a) == {j \in 1..Len(scn.g[a].ent) : scn.g[scn.g[a].ent[j].to].kind = "opt"}
+\* some opt-in class has no __setstate__
+K_NoSetstate(scn) == \E c \in OptNodes(scn) : ~scn.g[c].ss
+\* two opt-in objects are direct attributes of one opt-in object
+K_Siblings(scn) == \E a \in OptNodes(scn) : scn.g[a].ds /\ Cardinality(NamedKids(scn, a)) >= 2
+\* an opt-in object that is nobody's direct child (held by a container, a plain object, a non-dict state,
+\* or below a top-level object that is not opt-in)
+K_Free(scn) == \E c \in OptNodes(scn) : c # 1 /\ Owner(scn, c)[1] = 0
+\* a dict-state attribute refers to an opt-in object pickle has met before (shared / cyclic / self)
+K_Stale(scn) == \E a \in OptNodes(scn) : scn.g[a].ds /\ \E j \in NamedKids(scn, a) :
+                   Owner(scn, scn.g[a].ent[j].to) # <<a, j>>
+AnyPatch(scn) == \E k \in 1..Len(scn.loads) : scn.loads[k].patch # <<>>
+Known_C14(scn) == K_NoSetstate(scn) \/ K_Siblings(scn)
+Known_C15(scn) == K_NoSetstate(scn) \/ K_Siblings(scn) \/ (AnyPatch(scn) /\ (K_Free(scn) \/ K_Stale(scn)))
+\* remote=False goes through the same restore machinery for classes already registered as opt-in
+Known_C13(scn) == scn.t = "graph" /\ scn.op = "rp" /\ ~scn.remote /\ (scn.marker \/ scn.seen) /\ Known_C14(scn)
+
 (* ===================================== C13 ===================================== *)
 \* graphs / classes / values that do not opt in: the remote_pickle round trip is the pickle round trip
 C13_NonOptInEqualsPickle(r) ==
